@@ -3,7 +3,7 @@ from harness import common, layerb as B, schemes as S
 
 from univers.version_constraint import contains_version
 
-MODULES = ["Univers.Props.C04", "Univers.Props.Schemes"]
+MODULES = ["Univers.Props.C04", "Univers.Props.Schemes", "Univers.Text.EndToEndThm"]
 LEVEL = "proof"
 RULE = ("bounded-exhaustive: every comparator sequence over the six versioned comparators up to length L on "
         "version-sorted distinct versions x every probe position (at, below, above and between every constraint "
@@ -76,6 +76,7 @@ def correspondence(ctx):
             ctx.sample({"line": lines[index[(("ge", "lt"), 3)]], "model spec wf": answers[index[(("ge", "lt"), 3)]],
                         "scheme": name})
     _range_stream(ctx)
+    _end_to_end(ctx)
 
 
 def _oneliner(name, d):
@@ -146,3 +147,64 @@ def _range_stream(ctx):
 def search(ctx):
     """the disagreeing lines were already evaluated against the spec; widen the sweep by one"""
     pass
+
+
+def _end_to_end(ctx):
+    """characters in, answer out: `version_class(x) in VersionRange.from_string(t)` of the real code against the
+    Lean end-to-end model (text layer ∘ constructor ∘ sort ∘ membership; theorem contains_text_eq_denote) and
+    against the interval-set meaning on ranks"""
+    from harness.props.c13 import _variants
+    from univers.version_range import VersionRange, RANGE_CLASS_BY_SCHEMES
+    per = 400 if ctx.thorough else 60
+    for name in S.ALL:
+        rcls = S.rclass(name)
+        if rcls is None or RANGE_CLASS_BY_SCHEMES.get(rcls.scheme) is not rcls:
+            continue
+        rng = ctx.rng("c04-e2e", name)
+        bench = B.Bench(name, rng, size=14, need_hash=False)
+        stream = "end-to-end:" + name
+        if not bench.ok(9):
+            ctx.stream(stream)["skipped"] = "pool too small"
+            continue
+        jobs, vlines = [], []
+        for _ in range(per * 3):
+            k = rng.choice([1, 2, 2, 3, 4])
+            ranks = sorted(rng.sample(range(1, 9), k))
+            cons = [(rng.choice(B.CMPRS), r) for r in ranks]
+            jobs.append(cons)
+            vlines.append("validate %s" % B.cons_line(cons))
+        wf = [c for c, a in zip(jobs, common.run_model(vlines)) if a.endswith("true")][:per]
+        work = []
+        for cons in wf:
+            m = bench.mapping(10, rng)
+            # canonical texts (what str(version) prints), safe to write in a vers string
+            texts = {r: str(m[r][1]) for r in range(10)}
+            if any((not t) or (not t.isascii()) or any(ch in t for ch in "|\\'\" \t\n") or t[0] in "<>=!*vV" for t in texts.values()):
+                continue
+            try:
+                if any(not (S.vclass(name)(texts[r]) == m[r][1]) for r in range(10)):
+                    continue        # version text that does not round-trip is C11's business
+            except Exception:  # noqa: BLE001
+                continue
+            items = [(B.TXT[c] if c != "eq" else "") + texts[r] for c, r in cons]
+            t = _variants(rng, rcls.scheme, items)[0]
+            x = rng.randint(0, 9)
+            work.append((cons, t, x, texts[x]))
+        lines = ["e2e %s %s" % (common.hx(t), common.hx(xt)) for _c, t, _x, xt in work]
+        dl = ["denote %s %d" % (B.cons_line(c), x) for c, _t, x, _xt in work]
+        ans = common.run_model(lines) if lines else []
+        den = common.run_model(dl) if dl else []
+        vcls = S.vclass(name)
+        for (cons, t, x, xt), a, d in zip(work, ans, den):
+            if a == "nomodel":
+                ctx.stream(stream)["skipped"] = "no Layer-A model wired for this version class"
+                break
+            impl = B.res_bool(lambda: vcls(xt) in VersionRange.from_string(t))
+            spec = "ok:" + d.split(" ")[0]
+            ctx.count(stream, key=(t, xt), nontrivial=len(cons) >= 2)
+            rep = {"scheme": name, "vers": t, "version": xt,
+                   "python": "from univers.version_range import VersionRange as R; from univers.versions import %s as V; print(V(%r) in R.from_string(%r))" % (vcls.__name__, xt, t)}
+            if impl != spec:
+                ctx.disagree(stream, "e2e %r %r" % (t, xt), impl, a, True, rep, spec=spec)
+            elif impl != a:
+                ctx.disagree(stream, "e2e %r %r" % (t, xt), impl, a, False, rep, spec=spec)
